@@ -361,7 +361,11 @@ func (p *Peer) await(cond func() bool) (quiesce.Outcome, []quiesce.G) {
 		if p.QuietAfter > 0 && time.Since(start) < p.QuietAfter {
 			continue
 		}
-		q, gs := quiesce.Quiet()
+		q, gs := quiesce.QuietUnless(func() bool {
+			p.mu.Lock()
+			defer p.mu.Unlock()
+			return cond()
+		})
 		if q {
 			p.mu.Lock()
 			ok := cond()
